@@ -1497,7 +1497,12 @@ class Evaluator:
                     out.append(self.expr(n.elt, e, fr))
                     return True
                 g = n.generators[gi]
-                items = _iter_items(self.expr(g.iter, e, fr))
+                itv = self.expr(g.iter, e, fr)
+                if isinstance(itv, GenV):
+                    itv, ab = self.drain(itv, fr)      # a repository generator consumed by the comprehension
+                    if ab:
+                        raise Aborted()
+                items = _iter_items(itv)
                 if items is None:
                     return False
                 for it in items:
